@@ -6,6 +6,7 @@ import Fdo.Cbor.TypedWF
 import Fdo.Cbor.WellFormedLimits
 import Fdo.Cbor.TypedLimit
 import Fdo.Cbor.TypedAppend
+import Fdo.Cbor.TypedSplit
 import Fdo.Cbor.TypedProofs
 import Fdo.Gen.Cbor
 /-
@@ -189,6 +190,15 @@ through pointers, wrappers, raw passes, COSE headers and `interface{}` values al
 theorem typed_decode_ignores_suffix (ok : CertOracle) (f d : Nat) (s : Schema) (b t : Bytes) (v : Val) (r : Bytes)
     (h : decodeS ok f d s b = some (v, r)) : decodeS ok f d s (b ++ t) = some (v, r ++ t) :=
   decodeS_append ok f d s b t v r h
+
+/-- **What a decode target returns is a function of the bytes it consumed**: the input splits into the consumed
+prefix `p` and the rest; `p` alone decodes to the same value with nothing left, and `p` followed by anything else
+decodes to the same value leaving exactly that. (The typed twin of `decode_consumes_exactly`.) -/
+theorem typed_decode_depends_on_consumed_prefix_only (ok : CertOracle) (f d : Nat) (s : Schema) (b : Bytes) (v : Val) (r : Bytes)
+    (h : decodeS ok f d s b = some (v, r)) :
+    ∃ p, b = p ++ r ∧ decodeS ok f d s p = some (v, []) ∧ ∀ t, decodeS ok f d s (p ++ t) = some (v, t) := by
+  obtain ⟨p, hp, hd⟩ := decodeS_split ok f d s b v r h
+  exact ⟨p, hp, hd, fun t => by simpa using decodeS_append ok f d s p t v [] hd⟩
 
 /-- Whole-buffer decoding into any type never succeeds with bytes left over. -/
 theorem typed_unmarshal_no_trailing (ok : CertOracle) (s : Schema) (b : Bytes) (v : Val) (h : unmarshalS ok s b = some v) :
